@@ -458,14 +458,16 @@ def get_phase_blocks(
             stats.add_unphased()
             continue
 
-        blocks[phase.block_id].add(variant, phase)
+        # a phased call whose PS value is missing belongs to the default phase set 0 (as without a PS key)
+        block_id = 0 if phase.block_id is None else phase.block_id
+        blocks[block_id].add(variant, phase)
         if gtfwriter:
             if prev_block.id is None:
-                prev_block = GtfBlock(variant.position, variant.position + 1, phase.block_id)
+                prev_block = GtfBlock(variant.position, variant.position + 1, block_id)
             else:
-                if prev_block.id != phase.block_id:
+                if prev_block.id != block_id:
                     gtfwriter.write(chromosome, prev_block.start, prev_block.end, prev_block.id)
-                    prev_block = GtfBlock(variant.position, variant.position + 1, phase.block_id)
+                    prev_block = GtfBlock(variant.position, variant.position + 1, block_id)
 
                 prev_block.add(variant)
 
